@@ -58,8 +58,6 @@ def check_outcome(e, cands, want):
     seen_el, seen_out = set(), set()
     cs = sorted(cands)
     for r, s in enumerate(st):
-        if s.round_number != r:
-            return "round-number", f"state {r} carries round_number {s.round_number}"
         el = [c for x in e.get_elected(r) for c in x]
         out = [c for x in e.get_eliminated(r) for c in x]
         rem = [c for x in e.get_remaining(r) for c in x]
